@@ -415,6 +415,243 @@ def rule_total(rep, d, std):
     rep.holds(R, "xoptional.hpp, xmasked_value.hpp", "no failure exit", scenario="-std=%s: %d function bodies" % (std, n), detail="no throw, assert or abort in any body")
 
 
+# ---------------------------------------------------------------------------------------------------------------------
+# constructors, assignments and conversions between optional types: the presence evaluator takes `T(value, flag)` and a copy from another optional at face
+# value; that the constructors and assignment operators really carry the flag is decided here, on instantiations
+CTOR_DRIVER = r"""
+#include "xtl/xmasked_value.hpp"
+#include "xtl/xoptional.hpp"
+#include <utility>
+namespace xtl { namespace wx_ctor {
+using M = xmasked_value<double, bool>; using MR = xmasked_value<double&, bool&>; using MI = xmasked_value<int, bool>;
+using O = xoptional<double, bool>; using OR = xoptional<double&, bool&>; using OI = xoptional<int, bool>; using OCR = xoptional<const double&, const bool&>;
+inline void ctors(const OI& a, OI&& b, double& x, bool& fl, const O& same, const OCR& cr)
+{
+    O c1(a); O c2(std::move(b)); O c3(2.0); O c4; O c5(2.0, true); OR r(x, fl); O c6(r); O c7(cr); O c8(x, fl);
+    c1 = a; c1 = std::move(c2); c1 = 2.0; c1 = r; c1 = cr; r = same; r = 3.0; r = a;
+    M m1; M m2(1.0); M m3(1.0, false); MR m4(x, fl); m1 = m4; m1 = 2.0; m4 = m2; m4 = 1.0;
+}
+inline void ops(const M& a, const MR& r, const MI& i, const O& o, const OR& orf, const OI& oi)
+{
+    auto m1 = -a; auto m2 = +a; auto m3 = -r; auto m4 = +r; auto m5 = ~i; auto m6 = !i; auto m7 = a + r; auto m8 = a * 2.; auto m9 = 2. - r; auto m10 = a / i;
+    M c = a; c += r; c -= 1.; c *= i; bool b1 = a == r; bool b2 = a != 1.; bool b3 = a < r; bool b4 = 1. >= a;
+    auto o1 = -o; auto o2 = +orf; auto o3 = o + orf; auto o4 = o * 2.; auto o5 = 2. / orf; auto o6 = o && oi; auto o7 = !oi; auto o8 = o < orf; auto o9 = o - oi;
+    O d = o; d += orf; d *= 2.; bool e1 = o == orf; bool e2 = o != 1.; auto f1 = fma(o, orf, 2.); auto f2 = select(oi, o, orf); auto f3 = abs(orf); auto f4 = pow(o, 2.);
+    (void)m1; (void)m2; (void)m3; (void)m4; (void)m5; (void)m6; (void)m7; (void)m8; (void)m9; (void)m10; (void)b1; (void)b2; (void)b3; (void)b4;
+    (void)o1; (void)o2; (void)o3; (void)o4; (void)o5; (void)o6; (void)o7; (void)o8; (void)o9; (void)e1; (void)e2; (void)f1; (void)f2; (void)f3; (void)f4;
+}
+} }
+"""
+OPT_TYPE_RE = re.compile(r"\bx(optional|masked_value)<")
+
+
+def _ctor_src(d, e, params):
+    """where does this initialiser / right-hand side take its value from?  -> ("true"|"false"|"default"|"flag_of", P|"value_of", P|"param", P|"other", text)"""
+    if e is None:
+        return ("default",)
+    n = e
+    for _ in range(12):
+        n = ir.strip(n)
+        k = n.get("kind")
+        ks = ir.ekids(n)
+        if k in ("ImplicitCastExpr", "MaterializeTemporaryExpr", "ExprWithCleanups", "CXXBindTemporaryExpr", "CXXStaticCastExpr", "CXXFunctionalCastExpr") and ks:
+            n = ks[-1]
+            continue
+        if k == "CXXConstructExpr" and len(ks) == 1:
+            n = ks[0]
+            continue
+        if k == "CallExpr" and len(ks) == 2 and (ir.strip(ks[0]).get("referencedDecl") or {}).get("name") in ("move", "forward"):
+            n = ks[1]
+            continue
+        break
+    k = n.get("kind")
+    ks = ir.ekids(n)
+    if k == "CXXBoolLiteralExpr":
+        return ("true",) if n.get("value") else ("false",)
+    if k in ("CXXConstructExpr", "CXXScalarValueInitExpr", "ImplicitValueInitExpr", "InitListExpr") and not ks:
+        return ("default",)
+    if k == "DeclRefExpr" and (n.get("referencedDecl") or {}).get("name") in params:
+        return ("param", (n.get("referencedDecl") or {}).get("name"))
+    if k == "CXXMemberCallExpr" and ks:
+        me = ir.strip(ks[0])
+        if me.get("kind") == "MemberExpr" and ir.ekids(me):
+            obj = _ctor_src(d, ir.ekids(me)[0], params)
+            nm = me.get("name")
+            if obj[0] == "param":
+                if nm in ("has_value", "visible"):
+                    return ("flag_of", obj[1])
+                if nm == "value":
+                    return ("value_of", obj[1])
+    if k == "MemberExpr" and ks:
+        obj = _ctor_src(d, ks[0], params)
+        if obj[0] == "param":
+            if n.get("name") in ("m_flag", "m_visible"):
+                return ("flag_of", obj[1])
+            if n.get("name") == "m_value":
+                return ("value_of", obj[1])
+    return ("other", re.sub(r"\s+", " ", d.text(e))[:50])
+
+
+def rule_ctor(rep, tier):
+    rep.rule("C04.ctor", "constructors and assignment operators of xoptional / xmasked_value carry the presence: from another optional the flag is that optional's flag (never "
+                         "a constant), from a plain value it is true, from (value, flag) it is the flag argument, default construction is missing (xoptional) / visible "
+                         "(xmasked_value); a delegating constructor is judged by the arguments it delegates")
+    rep.rule("C04.conv", "inside the library's own operators and functions no xoptional / xmasked_value is turned into its bare value by an implicit user-defined conversion "
+                         "(the conversion operator drops the flag: a result built from it is always present)")
+    d = cj.dump(CTOR_DRIVER, "xtl::")
+    rep.cmd(d.cmd)
+    n_ctor = n_fn = 0
+    seen = set()
+    for f in list(d.by_id.values()):
+        kind = f.get("kind")
+        if kind not in ("CXXConstructorDecl", "CXXMethodDecl") or ir.is_template_pattern(d, f) or f.get("isImplicit") or f.get("explicitlyDefaulted"):
+            continue
+        cls = ir.enclosing_class(d, f)
+        cname = (cls or {}).get("name")
+        if cname not in ("xoptional", "xmasked_value"):
+            continue
+        if kind == "CXXMethodDecl" and (f.get("name") != "operator=" or cname != "xoptional"):
+            continue        # xmasked_value's `=` is one of its compound assignments (the mask is sticky): rule C04.cassign
+        w = d.where(f) or ""
+        fq = (f.get("type") or {}).get("qualType", "")
+        key = (w, fq)
+        if key in seen:
+            continue
+        flagname = "m_flag" if cname == "xoptional" else "m_visible"
+        params = [p.get("name") for p in ir.params(f)]
+        ptypes = [ir.qtype(p) for p in ir.params(f)]
+        from_opt = len(params) == 1 and OPT_TYPE_RE.search(ptypes[0] or "") is not None
+        vsrc = fsrc = None
+        deleg = None
+        if kind == "CXXConstructorDecl":
+            inits = [c for c in f.get("inner", []) if c.get("kind") == "CXXCtorInitializer"]
+            if not inits:
+                continue
+            for i_ in inits:
+                e = (i_.get("inner") or [None])[0]
+                nm = (i_.get("anyInit") or {}).get("name")
+                if nm == "m_value":
+                    vsrc = _ctor_src(d, e, params)
+                elif nm == flagname:
+                    fsrc = _ctor_src(d, e, params)
+                elif i_.get("delegatingInit"):
+                    args = [a for a in ir.ekids(ir.strip(e)) if a.get("kind") != "CXXDefaultArgExpr"] if e is not None else []
+                    deleg = [_ctor_src(d, a, params) for a in args]
+            what = "constructor"
+        else:
+            if not ir.has_body(f):
+                continue
+            for st in ir.walk_expr(ir.body(f)):
+                if st.get("kind") in ("BinaryOperator", "CXXOperatorCallExpr") and (st.get("opcode") == "=" or (st.get("kind") == "CXXOperatorCallExpr" and len(ir.ekids(st)) == 3)):
+                    ks = ir.ekids(st)
+                    l_, r_ = (ks[0], ks[1]) if st.get("kind") == "BinaryOperator" else (ks[1], ks[2])
+                    l_ = ir.strip(l_)
+                    while l_.get("kind") in ("ImplicitCastExpr",) and ir.ekids(l_):
+                        l_ = ir.strip(ir.ekids(l_)[0])
+                    if l_.get("kind") == "MemberExpr" and l_.get("name") == "m_value" and vsrc is None:
+                        vsrc = _ctor_src(d, r_, params)
+                    elif l_.get("kind") == "MemberExpr" and l_.get("name") == flagname and fsrc is None:
+                        fsrc = _ctor_src(d, r_, params)
+            if vsrc is None and fsrc is None:
+                continue
+            what = "assignment"
+        seen.add(key)
+        n_ctor += 1
+        lab = "%s::%s(%s)" % (cname, "operator=" if kind == "CXXMethodDecl" else cname, ", ".join(ptypes))
+        if deleg is not None:
+            if len(deleg) == 2:
+                vsrc, fsrc = deleg
+            elif len(deleg) == 1:
+                vsrc, fsrc = deleg[0], ("true",)       # the one-argument constructor of a plain value
+            elif len(deleg) == 0:
+                vsrc, fsrc = ("default",), (("false",) if cname == "xoptional" else ("true",))
+            else:
+                rep.inconclusive("C04.ctor", lab, what, where=w, detail="delegates with %d arguments" % len(deleg))
+                continue
+        bad = inc = None
+        if from_opt:
+            P = params[0]
+            if fsrc in (("true",), ("false",)):
+                bad = "a copy/conversion from another optional sets the flag to the constant `%s`%s: a missing source becomes present" % (fsrc[0], " (it delegates to the constructor of a plain value)" if deleg is not None else "")
+            elif fsrc != ("flag_of", P):
+                inc = "the flag is taken from `%s`" % (fsrc,)
+            elif vsrc not in (("value_of", P),):
+                inc = "the value is taken from `%s`" % (vsrc,)
+        elif len(params) == 0:
+            want = ("false",) if cname == "xoptional" else ("true",)
+            if fsrc in (("true",), ("false",)) and fsrc != want:
+                bad = "default construction sets the flag to %s" % fsrc[0]
+            elif fsrc != want:
+                inc = "the flag is `%s`" % (fsrc,)
+        elif len(params) == 1:
+            if fsrc == ("false",):
+                bad = "construction/assignment from a plain value gives a missing result"
+            elif fsrc != ("true",):
+                inc = "the flag is `%s`" % (fsrc,)
+            elif vsrc != ("param", params[0]):
+                inc = "the value is `%s`" % (vsrc,)
+        elif len(params) == 2:
+            if fsrc in (("true",), ("false",)):
+                bad = "the flag argument `%s` is ignored: the flag is the constant %s" % (params[1], fsrc[0])
+            elif fsrc == ("param", params[0]) or vsrc == ("param", params[1]):
+                bad = "value and flag arguments are crossed"
+            elif fsrc != ("param", params[1]) or vsrc != ("param", params[0]):
+                inc = "value from `%s`, flag from `%s`" % (vsrc, fsrc)
+        else:
+            inc = "%d parameters" % len(params)
+        if bad:
+            rep.violates("C04.ctor", lab, what, where=w, detail=bad)
+        elif inc:
+            rep.inconclusive("C04.ctor", lab, what, where=w, detail=inc)
+        else:
+            rep.holds("C04.ctor", lab, what, where=w, detail="value from %s, flag from %s" % (" ".join(vsrc), " ".join(fsrc)))
+    # implicit conversions to the bare value inside library functions
+    for f in ir.functions(d):
+        if ir.is_template_pattern(d, f):
+            continue
+        w = d.where(f) or ""
+        if not any(h in w for h in ("xmasked_value.hpp", "xoptional.hpp", "xoptional_meta.hpp")):
+            continue
+        n_fn += 1
+        hit = None
+        for x in ir.walk_expr(f):
+            if x.get("kind") == "ImplicitCastExpr" and x.get("castKind") == "UserDefinedConversion" and ir.ekids(x):
+                sub = ir.strip(ir.ekids(x)[0])
+                if sub.get("kind") == "CXXMemberCallExpr" and ir.ekids(sub):
+                    me = ir.strip(ir.ekids(sub)[0])
+                    obj_t = ir.qtype(ir.ekids(me)[0]) if me.get("kind") == "MemberExpr" and ir.ekids(me) else ""
+                    if OPT_TYPE_RE.search(obj_t or "") and not OPT_TYPE_RE.search(ir.qtype(x) or ""):
+                        hit = (x, obj_t)
+                        break
+        if hit:
+            rep.violates("C04.conv", "%s [%s]" % (f.get("name"), (f.get("type") or {}).get("qualType", "")[:90]), "implicit conversion to the bare value", where=d.where(hit[0]),
+                         detail="`%s` of type %s is converted to %s by its conversion operator: the flag is dropped and whatever is built from the value is present/visible" % (
+                             re.sub(r"\s+", " ", d.text(hit[0]))[:40], hit[1], ir.qtype(hit[0])))
+    if n_fn:
+        rep.holds("C04.conv", "instantiated operators and functions of the optional headers", "implicit conversion to the bare value", detail="%d instantiations, none converts an optional to its value implicitly" % n_fn)
+    if n_ctor < 12:
+        rep.broke("C04.ctor: only %d constructors/assignments of xoptional/xmasked_value were found instantiated (12 expected)" % n_ctor)
+
+
+def rule_types(rep, tier):
+    rep.rule("C04.type", "the result type of an operator or lifted function over mixed arithmetic operands is the optional of their common type, whatever position the widest "
+                         "operand is in (a narrower declared result silently converts the value the body computed)")
+    from ..witness import WitnessTU
+    w = WitnessTU('#include "xtl/xoptional.hpp"\n#include <type_traits>\nnamespace w { using namespace xtl;\n'
+                  'template <class E, class T> constexpr bool is_opt_of() { return std::is_same<std::decay_t<E>, xoptional<T, bool>>::value; }\n')
+    OI, OD = "std::declval<const xoptional<int, bool>&>()", "std::declval<const xoptional<double, bool>&>()"
+    rows = [("fma", "fma(%s, 2.5, 1)" % OI, "double"), ("fma", "fma(1, %s, 2.5)" % OI, "double"), ("fma", "fma(1, 2, %s)" % OD, "double"), ("fma", "fma(%s, 2, 1)" % OI, "int"),
+            ("fma", "fma(%s, %s, 1)" % (OI, OD), "double"), ("fma", "fma(2.5, %s, %s)" % (OI, OI), "double"),
+            ("operator+", "%s + 2.5" % OI, "double"), ("operator+", "2.5 + %s" % OI, "double"), ("operator*", "%s * %s" % (OI, OD), "double"),
+            ("operator-", "%s - %s" % (OD, OI), "double"), ("operator/", "%s / 2" % OI, "int"), ("pow", "pow(%s, 2.5)" % OD, "double"),
+            ("fmax", "fmax(%s, %s)" % (OD, OD), "double"), ("select", "select(true, %s, %s)" % (OI, OD), "double"), ("select", "select(true, %s, 2.5)" % OI, "double")]
+    for fn_, e, t in rows:
+        w.must_hold("is_opt_of<decltype(%s), %s>()" % (e, t), "C04.type", fn_, "result type", e.replace("std::declval<const xoptional<int, bool>&>()", "opt<int>").replace("std::declval<const xoptional<double, bool>&>()", "opt<double>"))
+    w.raw("}")
+    for comp, std in ([("clang++", "gnu++17")] if tier == "quick" else [("clang++", "gnu++14"), ("clang++", "gnu++20"), ("g++", "gnu++17")]):
+        w.run(rep, std=std, compiler=comp)
+
+
 def run(tier):
     rep = Report("C04", tier, "proof",
                  "Abstract evaluation of every xoptional/xmasked_value overload body (template patterns, so never-instantiated "
@@ -453,4 +690,6 @@ def run(tier):
         rep.unit("-std=%s: %d in-scope overload bodies evaluated; out of scope by the frozen table: %s" % (
             std, nbody, ", ".join("%s x%d" % kv for kv in sorted(skipped.items()))))
         rep.holds("C04.eval", "all", "bodies interpreted", scenario="-std=%s: %d bodies" % (std, nbody), nontrivial=False)
+    rule_ctor(rep, tier)
+    rule_types(rep, tier)
     return rep
